@@ -711,7 +711,19 @@ func init() {
 		run(c)
 		c.count("goroutines.at.end", runtime.NumGoroutine())
 	}
-	props["C05"] = func(c *ctx) { runAll(c); deadlineCases(c) }
+	props["C05"] = func(c *ctx) {
+		runAll(c)
+		deadlineCases(c)
+		// lookups (cached and uncached names) placed around and between the lock sections of a response handler: each
+		// returns in time whatever the receiver is doing
+		runSysLookups(c)
+		// lookups that miss while the control plane is unreachable, more of them than the request channel holds
+		outage(c, 1, 1040)
+		// the request path at goroutine granularity: the bounded channel during an outage and during a reconnect
+		flowCase(c, "outage", 1040)
+		flowCase(c, "flood", 1040)
+		flowCase(c, "flood", 100)
+	}
 	props["C06"] = runAll
 	props["C07"] = func(c *ctx) {
 		t0 := time.Now()
@@ -730,5 +742,13 @@ func init() {
 		t0 = time.Now()
 		runSys(c)
 		c.count("ms.sections", int(time.Since(t0).Milliseconds()))
+		t0 = time.Now()
+		// the request path: a reconnect racing more lookups than the request channel holds (S12), and fewer
+		for i := 0; i < 2*c.budget && !c.expired(); i++ {
+			flowCase(c, "flood", 1040)
+		}
+		flowCase(c, "flood", 100)
+		flowCase(c, "burst", 1040)
+		c.count("ms.flow", int(time.Since(t0).Milliseconds()))
 	}
 }
